@@ -172,6 +172,8 @@ impl Handler {
     }
 
     async fn serve(&mut self, store: &Store, options: ReadOptions) {
+        #[cfg(xs_verif)]
+        crate::verif::apoint("handler.subscribe", self.id.to_u128()).await;
         let mut recver = store.read(options).await;
 
         while let Some(frame) = recver.recv().await {
@@ -237,6 +239,8 @@ impl Handler {
             });
         }
 
+        #[cfg(xs_verif)]
+        crate::verif::apoint("handler.announce", self.id.to_u128()).await;
         let _ = store.append(
             Frame::builder(format!("{}.registered", &self.topic), self.context_id)
                 .meta(serde_json::json!({
@@ -325,9 +329,19 @@ impl EngineWorker {
     pub fn new(engine: nu::Engine, closure: nu_protocol::engine::Closure) -> Self {
         let (work_tx, mut work_rx) = mpsc::channel(32);
 
+        #[cfg(xs_verif)]
+        crate::verif::expect_thread("engine");
         std::thread::spawn(move || {
+            #[cfg(xs_verif)]
+            let _verif_scope = crate::verif::thread_scope("engine");
+            #[cfg(xs_verif)]
+            let (engine, closure, mut work_rx) = (engine, closure, work_rx);
             let mut engine = engine;
 
+            #[cfg(xs_verif)]
+            crate::verif::point_if("engine.idle", 0, &|| {
+                !work_rx.is_empty() || work_rx.is_closed()
+            });
             while let Some(WorkItem { frame, resp_tx }) = work_rx.blocking_recv() {
                 let mut stack = nu_protocol::engine::Stack::new();
                 let block = engine.state.get_block(closure.block_id);
@@ -364,6 +378,10 @@ impl EngineWorker {
                     });
 
                 let _ = resp_tx.send(output);
+                #[cfg(xs_verif)]
+                crate::verif::point_if("engine.idle", 0, &|| {
+                    !work_rx.is_empty() || work_rx.is_closed()
+                });
             }
         });
 
